@@ -306,7 +306,7 @@ theorem C07_empty_year (ex : List (Int × Rat)) (l : List Tx) (ds : List Disposa
 theorem C07_holdings_full_history (w : Int) (dp : Nat) (ex : List (Int × Rat)) (y1 y2 : Option Int)
     (l : List Tx) (r1 r2 : Report) (h1 : calculate w dp ex y1 l = .ok r1)
     (h2 : calculate w dp ex y2 l = .ok r2) : r1.holdings = r2.holdings := by
-  unfold calculate at h1 h2
+  unfold calculate reportFrom at h1 h2
   split at h1
   · cases h1
   · rename_i rs hrs
